@@ -131,7 +131,7 @@ void lattice(vf::Ctx& c, const char* tname, const GridCfg& gc, size_t originBloc
 
 // ---- S --------------------------------------------------------------------------------------------------------
 template <class S, size_t DIM>
-void sequences(vf::Ctx& c, const char* tname, int depth, size_t firstOp) {
+void sequences(vf::Ctx& c, const char* tname, int depth, size_t firstOp, bool longRun = false) {   // longRun: a fixed script of 30 operations with ONE position (every position in turn) replaced by any operation
   using P = Eigen::Matrix<S, DIM, 1>; using I = Eigen::Matrix<size_t, DIM, 1>;
   GridCfg gc{0.25, 21, false, 0, 0}, gcB{0.1, 61, false, 0, 0};
   auto g = make_grid<S, DIM>(gc); auto gB = make_grid<S, DIM>(gcB);   // same extent [-2.5,2.5] (resp. [-3,3]) at two resolutions: all four points lie in both
@@ -140,11 +140,15 @@ void sequences(vf::Ctx& c, const char* tname, int depth, size_t firstOp) {
   // ops: 0-3 setOrigin(p), 4-7 setEnd(p), 8-11 cast(p), 12-27 cast(o,e), 28 cast(), 29 next(), 30/31 setGridIndexMapping(grid A / grid B)
   const int NOPS = 34;   // 32: assign the caster to another long-lived caster (bound to the other grid, with a past) and continue with that one; 33: continue with a copy-constructed caster
   auto opname = [&](int op) { char b[64]; if (op < 4) snprintf(b, 64, "setOriginPoint(p%d)", op); else if (op < 8) snprintf(b, 64, "setEndPoint(p%d)", op - 4); else if (op < 12) snprintf(b, 64, "cast(p%d)", op - 8); else if (op < 28) snprintf(b, 64, "cast(p%d,p%d)", (op - 12) / 4, (op - 12) % 4); else if (op == 28) snprintf(b, 64, "cast()"); else if (op == 29) snprintf(b, 64, "next()"); else if (op < 32) snprintf(b, 64, "setGridIndexMapping(grid%c)", op == 30 ? 'A' : 'B'); else snprintf(b, 64, "%s", op == 32 ? "other = caster; continue with other" : "continue with a copy-constructed caster"); return std::string(b); };
-  uint64_t total = 1; for (int i = 1; i < depth; ++i) total *= NOPS;
+  if (longRun) depth = 30;
+  const int pattern[10] = {13, 10, 29, 24, 28, 31, 18, 7, 8, 30};   // cast(p0,p1) cast(p2) next() cast(p3,p0) cast() setGrid(B) cast(p1,p2) setEndPoint(p3) cast(p0) setGrid(A)
+  uint64_t total = 1; if (longRun) total = (uint64_t)depth * NOPS + 1; else for (int i = 1; i < depth; ++i) total *= NOPS;
   std::unordered_set<uint64_t> states;
-  std::vector<int> seq(depth); seq[0] = (int)firstOp;
+  std::vector<int> seq(depth), base(depth); if (!longRun) seq[0] = (int)firstOp;
+  for (int i = 0; i < depth; ++i) base[i] = pattern[i % 10];
   for (uint64_t k = 0; k < total; ++k) {
-    uint64_t r = k; for (int i = 1; i < depth; ++i) { seq[i] = r % NOPS; r /= NOPS; }
+    if (longRun) { seq = base; if (k) seq[(k - 1) / NOPS] = (int)((k - 1) % NOPS); }
+    else { uint64_t r = k; for (int i = 1; i < depth; ++i) { seq[i] = r % NOPS; r /= NOPS; } }
     std::unique_ptr<RayCasting<S, DIM>> rcp(new RayCasting<S, DIM>(&g)), otherp(new RayCasting<S, DIM>(&gB));
     (void)otherp->cast(pts[1], pts[0]);
 #define rc (*rcp)
@@ -203,6 +207,7 @@ const std::vector<Case>& cases(bool th) {
     for (int gI = 0; gI < ng; ++gI) { size_t nb = 16; for (size_t b = 0; b < nb; ++b) v.push_back({0, t, gI, b, nb, 0, 0}); }
   }
   for (int t = 0; t < 4; ++t) for (size_t f = 0; f < 34; ++f) v.push_back({1, t, 0, 0, 0, th ? 4 : 3, f});
+  for (int t = 0; t < 4; ++t) v.push_back({1, t, 0, 0, 0, -1, 0});   // deviation-bounded long run
   return v;
 }
 const char* kT[] = {"double2", "double3", "float2", "float3"};
@@ -227,10 +232,10 @@ void vf_run(uint64_t idx, const std::string& tier, vf::Ctx& c) {
     }
   } else {
     switch (k.type) {
-      case 0: sequences<double, 2>(c, kT[0], k.depth, k.firstOp); break;
-      case 1: sequences<double, 3>(c, kT[1], k.depth, k.firstOp); break;
-      case 2: sequences<float, 2>(c, kT[2], k.depth, k.firstOp); break;
-      case 3: sequences<float, 3>(c, kT[3], k.depth, k.firstOp); break;
+      case 0: sequences<double, 2>(c, kT[0], k.depth, k.firstOp, k.depth < 0); break;
+      case 1: sequences<double, 3>(c, kT[1], k.depth, k.firstOp, k.depth < 0); break;
+      case 2: sequences<float, 2>(c, kT[2], k.depth, k.firstOp, k.depth < 0); break;
+      case 3: sequences<float, 3>(c, kT[3], k.depth, k.firstOp, k.depth < 0); break;
     }
   }
 }
@@ -243,7 +248,7 @@ std::string vf_describe(const std::string& tier) {
   o.str("points", "2D: cells {0,1,N/4,N/2,N-2,N-1} x sub-cell offsets {-1/2 (border),-1/4,0 (centre),+1/4} per axis; 3D: cells {0,N/2,N-1} x {-1/2,0,+1/4}; plus border -+ max(res/2^17, 4ulp) for cells {1,N/2} (3D: N/2); all origin x end pairs (generic, axis-aligned, diagonal through corners, coincident)");
   o.str("fresh_caster_forms", "constructed on the grid / default-constructed then setGridIndexMapping / used on another grid then moved (rotating over the origin-end pairs)");
   o.str("tolerance", "(cells visited + 4) ulp(max(range,|coord|)) + 4 ulp(|coord|): worst-case accumulation of tMax += tDelta");
-  o.i("sequence_depth", th ? 4 : 3).str("sequence_ops", "setOriginPoint(p0..3), setEndPoint(p0..3), cast(p), cast(p,q), cast(), next(), setGridIndexMapping(A|B), assign to another long-lived caster and continue with it, continue with a copy = 34 ops (two grids of different resolution); all sequences, all four instantiations; differential oracle vs fresh caster + full geometric oracle");
+  o.i("sequence_depth", th ? 4 : 3).str("sequence_ops", "setOriginPoint(p0..3), setEndPoint(p0..3), cast(p), cast(p,q), cast(), next(), setGridIndexMapping(A|B), assign to another long-lived caster and continue with it, continue with a copy = 34 ops (two grids of different resolution); all sequences, all four instantiations; differential oracle vs fresh caster + full geometric oracle; plus a fixed script of 30 operations and every variant with ONE position replaced by any operation");
   return o.done();
 }
 
